@@ -10,7 +10,7 @@ use crate::rng::Hash64;
 use embedded_graphics::image::{GetPixel, ImageDrawable, ImageRaw};
 use embedded_graphics::pixelcolor::raw::{BigEndianLsb0, LittleEndianMsb0, RawData, RawU32};
 use embedded_graphics::pixelcolor::{
-    BinaryColor, Gray2, Gray4, Gray8, IntoStorage, PixelColor, Rgb565, Rgb888,
+    BinaryColor, Bgr555, Bgr565, Bgr888, Gray2, Gray4, Gray8, IntoStorage, PixelColor, Rgb332, Rgb444, Rgb555, Rgb565, Rgb888,
 };
 use embedded_graphics::prelude::*;
 use embedded_graphics::primitives::Rectangle;
@@ -27,6 +27,13 @@ pub enum ColorKind {
     Rgb565,
     Rgb888,
     C32,
+    // the remaining colour types with a MockDisplay character set (used by C20 only)
+    Rgb332,
+    Rgb444,
+    Rgb555,
+    Bgr555,
+    Bgr565,
+    Bgr888,
 }
 
 impl ColorKind {
@@ -39,6 +46,12 @@ impl ColorKind {
             ColorKind::Rgb565 => "Rgb565",
             ColorKind::Rgb888 => "Rgb888",
             ColorKind::C32 => "C32",
+            ColorKind::Rgb332 => "Rgb332",
+            ColorKind::Rgb444 => "Rgb444",
+            ColorKind::Rgb555 => "Rgb555",
+            ColorKind::Bgr555 => "Bgr555",
+            ColorKind::Bgr565 => "Bgr565",
+            ColorKind::Bgr888 => "Bgr888",
         }
     }
     pub fn bits(self) -> u32 {
@@ -50,6 +63,12 @@ impl ColorKind {
             ColorKind::Rgb565 => 16,
             ColorKind::Rgb888 => 24,
             ColorKind::C32 => 32,
+            // number of used bits = range of the raw colour values (C20 draws no raw images of these)
+            ColorKind::Rgb332 => 8,
+            ColorKind::Rgb444 => 12,
+            ColorKind::Rgb555 | ColorKind::Bgr555 => 15,
+            ColorKind::Bgr565 => 16,
+            ColorKind::Bgr888 => 24,
         }
     }
     pub fn mask(self) -> u32 {
@@ -129,6 +148,12 @@ sim_color!(Gray4, Gray4, Gray4);
 sim_color!(Gray8, Gray8, Gray8);
 sim_color!(Rgb565, Rgb565, BinaryColor);
 sim_color!(Rgb888, Rgb888, Rgb565);
+sim_color!(Rgb332, Rgb332, Rgb332);
+sim_color!(Rgb444, Rgb444, Rgb444);
+sim_color!(Rgb555, Rgb555, Rgb555);
+sim_color!(Bgr555, Bgr555, Bgr555);
+sim_color!(Bgr565, Bgr565, Bgr565);
+sim_color!(Bgr888, Bgr888, Bgr888);
 impl SimColor for C32 {
     const KIND: ColorKind = ColorKind::C32;
     type Down = C32;
@@ -153,6 +178,7 @@ pub fn convert_down_to(kind: ColorKind, raw_down: u32) -> u32 {
         ColorKind::Rgb565 => go::<Rgb565>(raw_down),
         ColorKind::Rgb888 => go::<Rgb888>(raw_down),
         ColorKind::C32 => go::<C32>(raw_down),
+        k => unreachable!("{} is not part of the colour-conversion chain", k.name()),
     }
 }
 
